@@ -608,7 +608,7 @@ fn run(args: &[String], seed: u64) -> i32 {
     let t0 = Instant::now();
     let tier = arg(args, "--tier").unwrap_or_else(|| "quick".into());
     let out_path = arg(args, "--out").unwrap_or_else(|| "/verif/target/partials/C15.json".into());
-    let (batches, per_batch, depth, width) = if tier == "thorough" { (16usize, 600usize, 8u32, 6usize) } else { (1usize, 320usize, 6u32, 5usize) };
+    let (batches, per_batch, depth, width) = if tier == "thorough" { (32usize, 1000usize, 8u32, 6usize) } else { (1usize, 320usize, 6u32, 5usize) };
     let mut sb = [0u8; 32];
     let mut s = seed ^ 0xC15;
     for ch in sb.chunks_mut(8) {
